@@ -13,6 +13,8 @@ Binding: harness/exporter/mq (real queuebatch.NewQueueBatch: obs queue + async q
      the reported size/capacity gauges are compared after every step.
   3. concurrent stress on the real queue; TLC searches for a linearisation of every recorded round (SQLin);
      a round that does not finish is a hang = violation of "a blocked producer is released / returns".
+     "idle" rounds: K parked consumers, bursts of <= K requests while no export call returns: every accepted request
+     must reach the export function (WorkConserving; consumer-side wake-ups).
 """
 import json, os
 import vlib
@@ -21,7 +23,8 @@ SPEC = "SizedQueue"
 
 
 def mc_cfg(prods, nc, cap, sz, cancel, block, wfr, impl="close",
-           invs="ExactlyOnce RefusedNeverHanded Fifo SizeBounds SizeExact ZeroAtEnd ResultIsOwn NoDeadlock NoLostWakeup"):
+           invs="ExactlyOnce RefusedNeverHanded Fifo SizeBounds SizeExact ZeroAtEnd ResultIsOwn NoDeadlock NoLostWakeup WorkConserving",
+           cons_signal="always"):
     return """SPECIFICATION Spec
 CONSTANTS
   Producers = {%s}
@@ -33,10 +36,11 @@ CONSTANTS
   Block = %s
   WFR = %s
   CondImpl = "%s"
+  ConsSignal = "%s"
 INVARIANTS %s
 CHECK_DEADLOCK FALSE
 """ % (",".join('"%s"' % p for p in prods), nc, cap, sz, ",".join('"%s"' % p for p in cancel),
-       "TRUE" if block else "FALSE", "TRUE" if wfr else "FALSE", impl, invs)
+       "TRUE" if block else "FALSE", "TRUE" if wfr else "FALSE", impl, cons_signal, invs)
 
 
 def gen_cfg(cap, persistent, n, sizes):
@@ -83,6 +87,13 @@ def run(c):
                         vacuous_ok=("PWakeCtx", "PEarly", "PWaitRes"), heap="16g",
                         label="design_%dp_%dc_cap%d_%s_%s%s" % (len(d[0]), d[1], d[2], d[3], "block" if d[5] else "nonblock",
                                                                  "_wfr" if d[6] else ""))
+    # non-vacuity of WorkConserving (consumer side of "no lost wake-ups"): with the wake-up issued only on the
+    # empty -> non-empty transition TLC must find a request queued next to a parked consumer
+    r = c.tlc(SPEC, "SQMC", cfg_text=mc_cfg(P3, 2, 2, "SzOnes", [], True, False, cons_signal="onempty", invs="WorkConserving"),
+              timeout=900, count=False, label="signal_on_empty_only_design")
+    c.extra["signal_on_empty_only_refuted_by_tlc"] = bool(r.error and r.error[0] == "invariant")
+    if not (r.error and r.error[0] == "invariant"):
+        raise vlib.Inconclusive("TLC no longer refutes the signal-on-empty-only design: WorkConserving may be vacuous")
     if not q:
         # non-vacuity of NoDeadlock: on the PINNED cond design (1-slot token channel) TLC must find the deadlock
         r = c.tlc(SPEC, "SQMC", cfg_text=mc_cfg(P4, 2, 2, "SzOnes", P4, True, False, impl="token", invs="NoDeadlock"),
